@@ -44,6 +44,9 @@ type Case struct {
 	ReadErrDir  int      `json:"read_error_dir"` // -1 none
 	ReadErrAt   int      `json:"read_error_at"`
 	ACMissing   bool     `json:"ac_entry_missing,omitempty"`
+	// MaxMsg, when non-zero, is the decorator's maximumMessageSizeBytes (default 65536). With a small limit a
+	// complete result may legitimately be refused (a message is too large): only returned results are judged.
+	MaxMsg int `json:"maximum_message_size_bytes,omitempty"`
 }
 
 const bigTree = int64(1) << 40
@@ -152,7 +155,11 @@ func runCase(fx *fixture, c Case) (v verdict) {
 		ac.Store(acDigest, fx.arBytes)
 	}
 
-	ba := completenesschecking.NewCompletenessCheckingBlobAccess(ac, cas, c.Batch, maxMessage, c.MaxTree)
+	maxMsg := maxMessage
+	if c.MaxMsg > 0 {
+		maxMsg = c.MaxMsg
+	}
+	ba := completenesschecking.NewCompletenessCheckingBlobAccess(ac, cas, c.Batch, maxMsg, c.MaxTree)
 	got, err := ba.Get(context.Background(), acDigest).ToProto(&remoteexecution.ActionResult{}, maxMessage)
 
 	v.calls = cas.calls
@@ -322,6 +329,9 @@ func runCase(fx *fixture, c Case) (v verdict) {
 	}
 
 	// An error was returned.
+	if c.MaxMsg > 0 {
+		return
+	}
 	if !M && !F && !C && !U && !B && !injected && !X {
 		if allPristine {
 			v.msg = fmt.Sprintf("everything referenced is present, well-formed, intact and within the size limit, but the decorator returned %v (%s)", err, describe())
